@@ -173,7 +173,7 @@ def _run_instance(inst, U, lattice):
     if inst.get("decoy") is not None:
         # another engine, with other options, is created and configured between this engine's construction and its compute():
         # engines share nothing
-        g = Force(inst["decoy"][0])
+        g = Force(passed if inst["decoy"][0] == "SAME" else inst["decoy"][0])     # "SAME": built from the very dict object f was given
         if inst["decoy"][1] is not None:
             g.set_options(inst["decoy"][1])
     try:
@@ -216,6 +216,14 @@ def run_relayout(rng):
     nodes = [Node(_num(a), _num(w), {"id": i + 1}) for i, (a, w) in enumerate(labels)]
     first = dict(inst["opts"])
     intended = None
+    if rng.random() < 0.2:
+        # a dry run of the layering through the public Distributor (narrow band: stubs are created, layerIndex stays as it was)
+        from labella.distributor import Distributor
+        try:
+            Distributor({"algorithm": rng.choice(["overlap", "simple"]), "layerWidth": rng.choice([10, 50, 100.5]), "density": 0.75,
+                         "nodeSpacing": 3, "stubWidth": 1}).distribute(list(nodes))
+        except Exception:
+            pass
     try:
         if rng.random() < 0.35:
             # the configuration handed over piecemeal: constructor + one or two set_options() calls, keys that equal the
@@ -513,7 +521,7 @@ def run_siblings(rng):
     for step in range(rng.choice([2, 3, 4])):
         decoy = None
         if rng.random() < 0.6:
-            decoy = [rng.choice([None, {}, {"maxPos": None}, {"maxPos": 5000, "minPos": -100, "density": 0.5, "nodeSpacing": 9,
+            decoy = [rng.choice([None, {}, "SAME", "SAME", {"maxPos": None}, {"maxPos": 5000, "minPos": -100, "density": 0.5, "nodeSpacing": 9,
                                                              "algorithm": "simple", "stubWidth": 7}]),
                      rng.choice([None, {"maxPos": None}, {"density": 1, "maxPos": 100000}, {"nodeSpacing": 11, "stubWidth": 5}])]
         out.append(run_instance({"labels": [list(l) for l in cur], "opts": dict(opts), "decoy": decoy}, 4, True))
@@ -546,9 +554,40 @@ def gen_far(rng):
     return inst
 
 
+def gen_offscreen(rng):
+    """A crowd of labels whose data positions lie far outside the bounds (events scrolled off the screen of a zoomed timeline:
+    the walls hold them at the edge at an enormous displacement cost) plus a few ordinary pairs that are slightly too close."""
+    k = rng.choice([60, 100, 150])
+    far = rng.choice([-200000, -50000, 1000000])
+    w = rng.choice([10, 4])
+    ns = rng.choice([3, 1, 0])
+    labels = [[far + rng.randint(-40, 40) / 2.0, w] for _ in range(k)]
+    base = 2500 if far < 0 else 100
+    for j in range(rng.randint(2, 5)):
+        x = base + 200 * j
+        labels += [[x, w], [x + w + ns - rng.choice([2, 1, 0.5]), w]]
+    rng.shuffle(labels)
+    opts = {"nodeSpacing": ns, "algorithm": "none", "density": 1, "stubWidth": 1, "minPos": 0,
+            "maxPos": None if far < 0 else rng.choice([None, 6000])}
+    if far > 0 and opts["maxPos"] is None:
+        opts["maxPos"] = 6000
+    return {"labels": labels, "opts": opts}
+
+
 def gen_centi(rng):
     """Values with two decimals (what a scale hands over is not on the half-unit lattice): exact in units of 1/200, so the
     optimum is still decided exactly.  Sizes stay inside the 32-bit envelope of the pool-adjacent-violators products."""
+    if rng.random() < 0.15:
+        # a long row in which every neighbouring pair is short of its gap by a hair (0.01 .. 0.05): each single merge changes the
+        # cost by less than 1e-4, the optimum spreads the whole row
+        n = rng.randint(40, 60)
+        w = rng.choice([10, 12.5])
+        ns = rng.choice([3, 0, 1.01])
+        short = rng.choice([0.01, 0.02, 0.05])
+        x0 = rng.choice([0, 37.13])
+        labels = [[round(x0 + i * (w + ns - short), 2), w] for i in range(n)]
+        return {"labels": labels, "opts": {"nodeSpacing": ns, "algorithm": "none", "density": 1, "stubWidth": 1,
+                                           "minPos": rng.choice([None, None, -50.5]), "maxPos": None}}
     n = rng.randint(1, 26)
     span = rng.choice([30, 100, 400, 900])
     c = lambda lo, hi: rng.randint(int(lo * 100), int(hi * 100)) / 100.0
@@ -600,6 +639,8 @@ def main():
         while len(recs) < job["count"]:
             if mode == "float":
                 r = run_instance(gen_float(rng), 1000, False)
+            elif mode == "offscreen":
+                r = run_instance(gen_offscreen(rng), 4, True)
             elif mode == "far":
                 r = run_instance(gen_far(rng), 4, True)
             elif mode == "centi":
